@@ -96,18 +96,22 @@ def program(E, cfg):
         E.assume(t <= te)
         v = p(t)
         E.observe("S(t)", v)
-        # piece containing t (midpoint rule at interior breakpoints, one-sided at the ends)
+        # The end values of every piece were just proved equal to the definition; what is left is
+        # that f(t) interpolates linearly inside the piece containing t (midpoint rule at interior
+        # breakpoints, one-sided at the ends) - an identity that does not depend on the values
+        # (value abstraction).
+        X, Y1, Y2 = list(p.x), list(p.y1), list(p.y2)
         exp = None
-        for k in range(len(ox) - 1):
-            if t > ox[k] and t < ox[k + 1]:
-                exp = oy1[k] + (oy2[k] - oy1[k]) * (t - ox[k]) / (ox[k + 1] - ox[k])
+        for k in range(len(X) - 1):
+            if t > X[k] and t < X[k + 1]:
+                exp = Y1[k] + (Y2[k] - Y1[k]) * (t - X[k]) / (X[k + 1] - X[k])
         if exp is None:
-            if t == ox[0]:
-                exp = oy1[0]
-            elif t == ox[-1]:
-                exp = oy2[-1]
+            if t == X[0]:
+                exp = Y1[0]
+            elif t == X[-1]:
+                exp = Y2[-1]
             else:
-                for k in range(1, len(ox) - 1):
-                    if t == ox[k]:
-                        exp = 0.5 * (oy2[k - 1] + oy1[k])
-        E.prove(E.eq(v, exp), "S(t) equals the instantaneous dissimilarity at every time")
+                for k in range(1, len(X) - 1):
+                    if t == X[k]:
+                        exp = 0.5 * (Y2[k - 1] + Y1[k])
+        E.prove(E.eq_abs(v, exp, Y1 + Y2), "S(t) equals the instantaneous dissimilarity at every time")
